@@ -398,6 +398,10 @@ def parse_script(script_text, start_line_number=1):
         except BareScriptParserError as error:
             raise BareScriptParserError(error.error, line, error.column_number, start_line_number + ix_line)
 
+    # Dangling line continuation?
+    if line_continuation:
+        raise BareScriptParserError('Unterminated line continuation', ' '.join(line_continuation), 1, start_line_number + ix_line)
+
     # Dangling label definitions?
     if label_defs:
         label_def = label_defs.pop()
